@@ -29,6 +29,13 @@ func c15DepositSteps(c *ctxT, kdir string) []string {
 				continue
 			case strings.Contains(cond, "proposal.Status != v1.StatusDepositPeriod") && strings.Contains(cond, "proposal.Status != v1.StatusVotingPeriod"):
 				out = append(out, "statusCheck")
+			case s.Init == nil && strings.HasPrefix(cond, "depositorAddr.Equals(keeper.authKeeper.GetModuleAddress(") && strings.HasSuffix(cond, "))") && has(s.Body, "return false,"):
+				// a guard that refuses a MODULE account as depositor: `if depositorAddr.Equals(…GetModuleAddress(<module>)) { return false, err }`
+				mod := strings.TrimSuffix(strings.TrimPrefix(cond, "depositorAddr.Equals(keeper.authKeeper.GetModuleAddress("), "))")
+				if mod == "govtypes.ModuleName" {
+					mod = "gov"
+				}
+				out = append(out, "depositorNotModule:"+mod)
 			case s.Init != nil && has(s.Init, "keeper.validateDepositDenom(params, depositAmount)"):
 				out = append(out, "denomCheck")
 			case cond == "!minDepositRatio.IsZero()":
